@@ -20,6 +20,12 @@ CHECKS = {
         note="Reference = tokenize.generate_tokens of the running CPython 3.12; reference tokens whose coordinates contradict their own text (a CPython bug after non-ASCII text) are excluded and counted.",
         ref="DESIGN.md §4 C09",
     ),
+    "C11": dict(
+        technique="property-based testing of the error path: mutated/truncated programs and ~170 targeted syntax errors wrapped in generated layouts, checked against a validity predicate over (exception, source text)",
+        text="Exploration: every SyntaxError/IndentationError raised for a generated rejected input must carry msg, filename, 1<=lineno<=nlines+1, 1<=offset<=len(line)+1, an end position >= start, and a text starting with the reported source line. Histogram by raising site shows which raise_* helpers, tokenizer and literal-evaluation paths were reached. Held on everything generated.",
+        note="The predicate is the property's own wording; text is compared modulo trailing whitespace (EOF tokens carry an empty line). TokenError outcomes are outside C11.",
+        ref="DESIGN.md §4 C11",
+    ),
     "C18": dict(
         technique="property-based testing over size-parameterised input families with deterministic work counters (token reads/peeks/resets of a counting Tokenizer subclass): fixed families from the grammar's recursion structure + Hypothesis-drawn wrapper mixtures, valid and invalid; linear bound and doubling-ratio oracle",
         text="Exploration: each family is instantiated at doubling sizes and must satisfy work <= 3000*tokens+20000 and work(2n)/work(n) <= 2.6; no wall-clock is involved so verdicts are reproducible. Decides linearity only for the families generated. Held except the listed finding D42 (quadratic on rejected nested subprocesses).",
